@@ -174,6 +174,17 @@ def clearParams (e : Exp) : Exp := { e with params := [] }
 def setPost (e : Exp) (p : Option Sym) : Exp := { e with post := p }
 def setNoise (e : Exp) (n : Option Nat) : Exp := { e with noise := n }
 
+/-- a value of one of the circuit's parameters is changed in place (`P.set_value(v)`, no observer is
+told): the processor's circuit is the same object but denotes another matrix — a new symbol under
+the same mode relabelling -/
+def retune (e : Exp) (circ : Nat) : Exp := { e with circ := { e.circ with id := circ } }
+
+/-- `add(k, component)` of a unitary component on free modes of interest of a processor without
+post-selection: the composed circuit is a new symbol (in the processor's own mode labelling), its
+variable parameters are appended -/
+def addComponent (e : Exp) (circ : Nat) (cparams : List String) : Exp :=
+  { e with circ := ⟨circ, []⟩, cparams := e.cparams ++ cparams }
+
 /-! ### `check_circuit`, `check_input`, `prepare_job_payload` -/
 
 def above (limit : Option Nat) (x : Nat) : Bool :=
@@ -193,6 +204,26 @@ def checkCircuit (pf : Platform) (e : Exp) : Option Err :=
   else match e.input with
     | some s => if s.length ≠ e.size then some .runtime else none
     | none => none
+
+/-- `RemoteProcessor.check_circuit(circuit)` for a circuit of `sz` modes handed in by the user -/
+def checkCircuitOf (pf : Platform) (input : Option (List Nat)) (sz : Nat) : Option Err :=
+  if above pf.maxModes sz then some .runtime
+  else if below pf.minModes sz then some .runtime
+  else match input with
+    | some s => if s.length ≠ sz then some .runtime else none
+    | none => none
+
+/-- `RemoteProcessor.set_circuit(c)` (`checked = true`: `check_circuit(c)` first) or
+`rp.experiment.set_circuit(c)` (`checked = false`: `Experiment.set_circuit` only) for a circuit of
+`sz` modes on a processor with at least one mode of interest: the components are replaced when the
+size is the circuit size (`assert circuit.m == self.circuit_size`); heralds, input, post-selection,
+noise, filter stay -/
+def setCircuit (pf : Platform) (e : Exp) (checked : Bool) (sz circ : Nat) (cparams : List String) : Res Exp :=
+  match (if checked then checkCircuitOf pf e.input sz else none) with
+  | some err => throw err
+  | none =>
+    if sz ≠ e.size then throw .assertion
+    else pure { e with circ := ⟨circ, []⟩, cparams := cparams }
 
 /-- `RemoteProcessor.check_input(state)` for a state given on the modes of interest -/
 def checkInput (pf : Platform) (e : Exp) (s : List Nat) : Option Err :=
@@ -551,6 +582,9 @@ inductive Op where
   | setNoise (n : Option Nat)
   | setParam (k : String) (v : PV)
   | clearParams
+  | setCircuit (checked : Bool) (size circ : Nat) (cparams : List String)
+  | retune (circ : Nat)
+  | addComponent (circ : Nat) (cparams : List String)
   | prepare (cmd : String) (circuitless inputless : Bool) (kw : Dict V)
   | newSampler (ms : PV)
   | addIterations (its : List (Dict IV))
@@ -615,6 +649,10 @@ def step (w : World) (op : Op) : World × Out :=
   | .setNoise n => onExp w (fun e => pure (setNoise e n))
   | .setParam k v => onExp w (fun e => pure (setParam e k v))
   | .clearParams => onExp w (fun e => pure (clearParams e))
+  | .setCircuit checked sz circ cps =>
+    onExp w (fun e => if e.m = 0 then throw .precondition else setCircuit w.pf e checked sz circ cps)
+  | .retune circ => onExp w (fun e => pure (retune e circ))
+  | .addComponent circ cps => onExp w (fun e => if e.post.isSome then throw .precondition else pure (addComponent e circ cps))
   | .prepare cmd cl il kw =>
     match w.exp with
     | none => (w, .err .precondition)
